@@ -83,4 +83,11 @@ var propTable = map[string]*propSpec{
 		NotDecided: "the collision-chain invariants I1-I3 over all histories, border validity of the length operator, traversal completeness, and value-level equality corners (e.g. integer/float equality near 2^53): these quantify over operation histories and operand values.",
 		Assumptions: []string{"the five operations named are the only entry points from mixedTable into the hash part (checked: each must contain at least one such call)"},
 	},
+	"C07": {
+		ID:    "C07",
+		Rules: []string{"R-CONTEXT", "R-GATE"},
+		Explanation: "Decides dependency-presence conditions of 'nested contexts conserve budgets and report status truthfully': a child's hard limits are computed from the parent's hard limits, its used resources (refreshed when time is tracked) and the request; soft limits from the child's new hard limits; PopContext re-charges the parent before restoring it; the status field has exactly its four owners, and CallContext sets the final status only on the error branch after everything that can still run Lua; Due() depends on stopLevel, softLimits and usedResources; required flags only grow (R-GATE b).",
+		NotDecided: "the '0 = unlimited' arithmetic of Remove/Merge/atLimit/smallerLimit over uint64 (value-level; a solver or exhaustive argument is a different family); that used never exceeds kill numerically.",
+		Assumptions: []string{"dependency presence is checked on SSA def-use slices (through calls), deliberately not expression shape, so inlining or renaming locals does not fire it; that the dependency is the *right* function of its inputs is not decided"},
+	},
 }
